@@ -1294,7 +1294,7 @@ package mqtt
 // verif:func mqtt.Hooks.OnSessionEstablish trusted pure
 // verif:func mqtt.Hooks.OnSessionEstablished trusted pure
 // verif:func mqtt.Hooks.OnDisconnect trusted pure
-// verif:func mqtt.Client.IsTakenOver trusted pure
+// verif:func mqtt.Client.IsTakenOver pure
 //@ ensures r0 == cl.State.isTakenOver.abool
 // the will message of a connection: every call of sendLWT is counted (ghost)
 // verif:func mqtt.Server.attachClient modifies=all
